@@ -9,5 +9,5 @@ for i in insts:
     if sub in i.name:
         r = core.run_instance(i.as_dict())
         r.pop("shims", None)
-        print(json.dumps(r, indent=1, default=str)[:6000])
+        print(json.dumps(r, indent=1, default=str))
         break
